@@ -231,6 +231,7 @@ package nutsdb
 //@   assumed sparse mode: loads the bucket key ranges from meta/bucket/*.meta
 //@   modifies entries(db.bucketMetas)
 //@ func DB.buildIndexes
+//@   requires applicable(db)
 //@   requires db != nil && db.BPTreeKeyEntryPosMap != nil && db.ActiveCommittedTxIdsIdx != nil && db.BPTreeIdx != nil && db.ActiveBPTreeIdx != nil
 //@   ensures fsMut >= old(fsMut)
 //@   modifies everything
@@ -249,7 +250,7 @@ package nutsdb
 // pendingOK is the type invariant of Tx: what put establishes for every buffered entry and Commit relies on.
 //@ spec func pendingEach(tx *Tx) bool = forall i int :: 0 <= i && i < len(tx.pendingWrites) ==>
 //@        allocated(tx.pendingWrites[i]) && entryWF(tx.pendingWrites[i]) && allocated(tx.pendingWrites[i].Meta) &&
-//@        tx.pendingWrites[i].Meta.status == UnCommitted && tx.pendingWrites[i].Meta.txID == tx.id
+//@        tx.pendingWrites[i].Meta.status == UnCommitted && tx.pendingWrites[i].Meta.txID == tx.id && recShape(tx.pendingWrites[i])
 //@ spec func pendingDistinct(tx *Tx) bool = forall i int, j int :: 0 <= i && i < j && j < len(tx.pendingWrites) ==>
 //@        tx.pendingWrites[i] != tx.pendingWrites[j] && tx.pendingWrites[i].Meta != tx.pendingWrites[j].Meta
 //@ spec func pendingOK(tx *Tx) bool = pendingEach(tx) && pendingDistinct(tx)
@@ -280,7 +281,7 @@ package nutsdb
 //@        string(tx.pendingWrites[old(len(tx.pendingWrites))].Meta.bucket) == bucket
 //@   ensures arr(tx.pendingWrites) == old(arr(tx.pendingWrites)) || fresh(tx.pendingWrites)
 //@   ensures prefixSame(tx)
-//@   ensures[C10] old(pendingOK(tx)) && result == nil ==> pendingEach(tx)
+//@   ensures[C10,C20] old(pendingOK(tx)) && result == nil && recShapeOf(flag, ds, key, value) ==> pendingEach(tx)
 //@   ensures[C10] old(pendingOK(tx)) && result == nil ==> pendingDistinct(tx)
 //@   modifies tx.pendingWrites, elems(tx.pendingWrites)
 //@   safety[C20] panics
@@ -400,13 +401,32 @@ package nutsdb
 //@   modifies entries(tx.db.BPTreeIdx), alltype(BPTree), alltype(Node), alltype(Record), idxMut
 //@   safety[C20] panics
 
-//@ func Tx.buildIdxes
-//@   assumed applies the set / sorted-set / list records of the transaction to the in-memory indexes (appliers are under contract separately)
-//@   requires tx != nil && tx.db != nil
+//@ func Tx.buildSortedSetIdx
+//@   assumed commit-time applier of sorted-set records (ds/zset is not yet under contract)
+//@   requires tx != nil && tx.db != nil && entry != nil && entry.Meta != nil
 //@   requires[C14] lockMode == 2
-//@   ensures writesLen > 0 ==> idxMut > old(idxMut)
-//@   ensures tx.db.KeyCount == old(tx.db.KeyCount) + writesLen
-//@   modifies tx.db.KeyCount, entries(tx.db.SetIdx), entries(tx.db.ListIdx), entries(tx.db.SortedSetIdx), alltype(list.List), alltype(set.Set), alltype(zset.SortedSet), idxMut
+//@   at entry: bump idxMut
+//@   ensures idxMut == old(idxMut) + 1
+//@   modifies entries(tx.db.SortedSetIdx), alltype(zset.SortedSet), alltype(zset.SortedSetNode), idxMut
+//@ spec func applicable(db *DB) bool = setsOK(db) && listsOK(db) && db.SortedSetIdx != nil
+//@ func Tx.buildIdxes
+//@   requires tx != nil && tx.db != nil && applicable(tx.db) && 0 <= writesLen && writesLen <= len(tx.pendingWrites)
+//@   requires forall k int :: 0 <= k && k < len(tx.pendingWrites) ==> tx.pendingWrites[k] != nil && tx.pendingWrites[k].Meta != nil && recShape(tx.pendingWrites[k])
+//@   requires[C14] lockMode == 2
+//@   ensures[C12] tx.db.KeyCount == old(tx.db.KeyCount) + writesLen
+//@   ensures applicable(tx.db) && idxMut >= old(idxMut)
+//@   modifies tx.db.KeyCount, entries(tx.db.SetIdx), entries(tx.db.ListIdx), entries(tx.db.SortedSetIdx), alltype(zset.SortedSet), alltype(zset.SortedSetNode), idxMut,
+//@        allentries(tx.db.SetIdx[""].M), allentries(tx.db.SetIdx[""].M[""]), allentries(tx.db.ListIdx[""].Items), allelems(tx.db.ListIdx[""].Items[""])
+//@   safety[C20] panics
+//@   loops 1
+//@   loop 1: modifies tx.db.KeyCount, entries(tx.db.SetIdx), entries(tx.db.ListIdx), entries(tx.db.SortedSetIdx), alltype(zset.SortedSet), alltype(zset.SortedSetNode), idxMut,
+//@        allentries(tx.db.SetIdx[""].M), allentries(tx.db.SetIdx[""].M[""]), allentries(tx.db.ListIdx[""].Items), allelems(tx.db.ListIdx[""].Items[""])
+//@   loop 1: invariant 0 <= i && i <= writesLen && tx == old(tx) && tx.db == old(tx.db) && writesLen == old(writesLen) && tx.pendingWrites == old(tx.pendingWrites) && lockMode == 2
+//@   loop 1: invariant applicable(tx.db) && idxMut >= old(idxMut) && tx.db.KeyCount == old(tx.db.KeyCount) + i
+//@   loop 1: invariant forall k int :: 0 <= k && k < len(tx.pendingWrites) ==> tx.pendingWrites[k] != nil && tx.pendingWrites[k].Meta != nil && recShape(tx.pendingWrites[k])
+//@   at call buildSetIdx: assert[C06,C08] entry == tx.pendingWrites[i] && $arg1 == string(entry.Meta.bucket) && $arg2 == entry && entry.Meta.ds == DataStructureSet
+//@   at call buildListIdx: assert[C05,C08] entry == tx.pendingWrites[i] && $arg1 == string(entry.Meta.bucket) && $arg2 == entry && entry.Meta.ds == DataStructureList
+//@   at call buildSortedSetIdx: assert[C07,C08] entry == tx.pendingWrites[i] && $arg1 == string(entry.Meta.bucket) && $arg2 == entry && entry.Meta.ds == DataStructureSortedSet
 
 //@ func Tx.buildTxIDRootIdx
 //@   assumed sparse mode: records the committed tx id in the active / reserved tx-id trees and their files
@@ -421,6 +441,7 @@ package nutsdb
 //@   requires tx != nil && (tx.db != nil ==> dbOK(tx.db) && pendingOK(tx) && tx.ReservedStoreTxIDIdxes != nil)
 //@   requires tx.db != nil ==> (tx.writable ==> lockMode == 2) && (!tx.writable ==> lockMode == 1) && (len(tx.pendingWrites) > 0 ==> tx.writable)
 //@   requires tx.db != nil && tx.db.opt.SyncEnable ==> unsynced == 0
+//@   requires[C20] tx.db != nil ==> applicable(tx.db)
 //@   requires tx.db != nil && tx.db.opt.EntryIdxMode == HintBPTSparseIdxMode ==> tx.db.ActiveBPTreeIdx != nil && tx.db.ActiveCommittedTxIdsIdx != nil && tx.db.bucketMetas != nil
 //@   ensures[C12,C20] old(tx.db) == nil ==> result == ErrDBClosed
 //@   ensures[C14] result == nil && old(tx.db) != nil ==> lockMode == 0 && tx.db == nil
@@ -438,6 +459,8 @@ package nutsdb
 //@   loop 1: invariant[C10] forall j int :: i <= j && j < writesLen ==> allocated(tx.pendingWrites[j]) && entryWF(tx.pendingWrites[j]) && allocated(tx.pendingWrites[j].Meta) &&
 //@        tx.pendingWrites[j].Meta.status == UnCommitted && tx.pendingWrites[j].Meta.txID == tx.id
 //@   loop 1: invariant pendingDistinct(tx)
+//@   loop 1: invariant[C20] applicable(tx.db)
+//@   loop 1: invariant[C20] forall k int :: 0 <= k && k < len(tx.pendingWrites) ==> tx.pendingWrites[k] != nil && tx.pendingWrites[k].Meta != nil && recShape(tx.pendingWrites[k])
 //@   loop 1: invariant[C11] tx.db.opt.SyncEnable ==> unsynced == 0
 //@   loop 1: invariant[C12] tx.db.KeyCount == old(tx.db.KeyCount)
 //@   loop 1: invariant i == 0 ==> idxMut == old(idxMut) && tx.db.ActiveFile == old(tx.db.ActiveFile) && tx.db.MaxFileID == old(tx.db.MaxFileID)
@@ -492,15 +515,18 @@ package nutsdb
 //@   ensures err == nil ==> committedTxIds != nil
 //@   ensures db.opt == old(db.opt) && db.BPTreeIdx == old(db.BPTreeIdx) && db.ActiveBPTreeIdx == old(db.ActiveBPTreeIdx) && db.SetIdx == old(db.SetIdx) && db.ListIdx == old(db.ListIdx) && db.SortedSetIdx == old(db.SortedSetIdx)
 //@   ensures[C08,C10] forall k int :: 0 <= k && k < len(unconfirmedRecords) ==> unconfirmedRecords[k] != nil && unconfirmedRecords[k].H != nil && unconfirmedRecords[k].H.meta != nil
+//@   ensures old(applicable(db)) ==> applicable(db)
 //@   modifies everything
 //@   safety[C20] panics
 //@   loops 2
 //@   loop 1: invariant -1 <= rangeindex && db == old(db) && db.BPTreeKeyEntryPosMap != nil && committedTxIds != nil && db.opt == old(db.opt) &&
 //@        db.ActiveCommittedTxIdsIdx != nil && db.BPTreeIdx == old(db.BPTreeIdx) && db.ActiveBPTreeIdx == old(db.ActiveBPTreeIdx) && db.SetIdx == old(db.SetIdx) && db.ListIdx == old(db.ListIdx) && db.SortedSetIdx == old(db.SortedSetIdx)
 //@   loop 1: invariant forall k int :: 0 <= k && k < len(unconfirmedRecords) ==> unconfirmedRecords[k] != nil && unconfirmedRecords[k].H != nil && unconfirmedRecords[k].H.meta != nil
+//@   loop 1: invariant old(applicable(db)) ==> applicable(db)
 //@   loop 2: invariant off >= 0 && db == old(db) && db.BPTreeKeyEntryPosMap != nil && committedTxIds != nil && f != nil && f.rwManager != nil && db.opt == old(db.opt) &&
 //@        db.ActiveCommittedTxIdsIdx != nil && db.BPTreeIdx == old(db.BPTreeIdx) && db.ActiveBPTreeIdx == old(db.ActiveBPTreeIdx) && db.SetIdx == old(db.SetIdx) && db.ListIdx == old(db.ListIdx) && db.SortedSetIdx == old(db.SortedSetIdx)
 //@   loop 2: invariant forall k int :: 0 <= k && k < len(unconfirmedRecords) ==> unconfirmedRecords[k] != nil && unconfirmedRecords[k].H != nil && unconfirmedRecords[k].H.meta != nil
+//@   loop 2: invariant old(applicable(db)) ==> applicable(db)
 //@   at mapupdate committedTxIds: assert[C10,C08] entry.Meta.status == Committed && $key == entry.Meta.txID
 //@   at mapupdate BPTreeKeyEntryPosMap: assert[C02] $value == lastReadOff
 //@   at stored unconfirmedRecords: assert[C01,C19,C08] len(unconfirmedRecords) > 0 ==>
@@ -525,20 +551,32 @@ package nutsdb
 //@   ensures forall x *Record :: old(x.H != nil && x.H.meta != nil) ==> x.H != nil && x.H.meta != nil
 //@   ensures r.H == old(r.H) && r.H.meta == old(r.H.meta) && r.H.meta.txID == old(r.H.meta.txID) && r.H.meta.ds == old(r.H.meta.ds)
 //@   modifies alltype(BPTree), alltype(Node), alltype(Record), elems(r.H.meta.bucket)
-//@ func DB.buildOtherIdxes
-//@   assumed dispatches a set / sorted-set / list record to its open-time applier
+//@ func DB.buildSortedSetIdx
+//@   assumed open-time applier of sorted-set records (ds/zset is not yet under contract)
 //@   requires db != nil && r != nil && r.H != nil && r.H.meta != nil
-//@   modifies entries(db.SetIdx), entries(db.ListIdx), entries(db.SortedSetIdx), alltype(list.List), alltype(set.Set), alltype(zset.SortedSet)
+//@   modifies entries(db.SortedSetIdx), alltype(zset.SortedSet), alltype(zset.SortedSetNode)
+//@ func DB.buildOtherIdxes
+//@   requires db != nil && applicable(db) && r != nil && r.H != nil && r.H.meta != nil
+//@   ensures applicable(db)
+//@   ensures[C08,C09] r.E != nil && r.H.meta.ds != DataStructureSortedSet ==> result == nil
+//@   at call buildSetIdx: assert[C06,C08] r.H.meta.ds == DataStructureSet && $arg1 == bucket && $arg2 == r
+//@   at call buildListIdx: assert[C05,C08] r.H.meta.ds == DataStructureList && $arg1 == bucket && $arg2 == r
+//@   at call buildSortedSetIdx: assert[C07,C08] r.H.meta.ds == DataStructureSortedSet && $arg1 == bucket && $arg2 == r
+//@   modifies entries(db.SetIdx), entries(db.ListIdx), entries(db.SortedSetIdx), alltype(zset.SortedSet), alltype(zset.SortedSetNode),
+//@        allentries(db.SetIdx[""].M), allentries(db.SetIdx[""].M[""]), allentries(db.ListIdx[""].Items), allelems(db.ListIdx[""].Items[""])
+//@   safety[C20] panics
 //@ func DB.buildBPTreeRootIdxes
 //@   assumed sparse mode: loads the root index records of the sealed segments
 //@   modifies db.BPTreeRootIdxes
 
 //@ func DB.buildHintIdx
+//@   requires applicable(db)
 //@   requires db != nil && db.BPTreeKeyEntryPosMap != nil && db.ActiveCommittedTxIdsIdx != nil && db.BPTreeIdx != nil && (db.opt.EntryIdxMode == HintBPTSparseIdxMode ==> len(dataFileIds) > 0 && db.ActiveBPTreeIdx != nil)
 //@   modifies everything
 //@   safety[C20] panics
 //@   loops 1
 //@   loop 1: invariant -1 <= rangeindex && rangeindex < len(unconfirmedRecords) && db == old(db) && db.opt == old(db.opt)
+//@   loop 1: invariant applicable(db)
 //@   loop 1: invariant forall k int :: 0 <= k && k < len(unconfirmedRecords) ==> unconfirmedRecords[k] != nil && unconfirmedRecords[k].H != nil && unconfirmedRecords[k].H.meta != nil
 //@   branch 4: iff[C08,C10,C11] has(db.committedTxIds, r.H.meta.txID)
 //@   at call buildBPTreeIdx: assert[C10,C11] has(db.committedTxIds, r.H.meta.txID)
@@ -636,6 +674,7 @@ package nutsdb
 
 //@ func Tx.push
 //@   requires tx != nil && pendingOK(tx)
+//@   requires[C20] forall j int :: 0 <= j && j < len(values) ==> recShapeOf(flag, DataStructureList, key, values[j])
 //@   ensures[C12,C20] result != nil ==> samePending(tx)
 //@   ensures[C12] len(values) > 0 && old(refuses(tx, key)) ==> result != nil
 //@   ensures[C12] !old(refuses(tx, key)) ==> result == nil
@@ -740,9 +779,10 @@ package nutsdb
 //@ extern bytes.Buffer.Write (b, p) (n, err)
 //@   ensures err == nil && n == len(p) && string(b.buf[b.off:]) == concat(old(string(b.buf[b.off:])), string(p))
 //@   ensures 0 <= b.off && b.off <= len(b.buf) && (arr(b.buf) == old(arr(b.buf)) || fresh(b.buf))
+//@   ensures (len(p) > 0 ==> arr(b.buf) != 0) && (old(allocated(b.buf)) ==> allocated(b.buf))
 //@   modifies b.buf, b.off, b.lastRead, elems(b.buf)
 //@ extern bytes.Buffer.Bytes (b) (r)
-//@   ensures string(r) == string(b.buf[b.off:])
+//@   ensures string(r) == string(b.buf[b.off:]) && arr(r) == arr(b.buf)
 //@   modifies nothing
 //@   pure
 //@ extern strings.Contains (s, substr) (r)
@@ -1105,3 +1145,114 @@ package nutsdb
 //@   loop 1: modifies lastReadOff
 //@   loop 1: invariant -1 <= rangeindex && rangeindex < len(records) && tx == old(tx) && tx.db == old(tx.db) && records == pre(records) && recsOK(records) &&
 //@        (arr(es) == arr(pre(es)) || sinceLoop(es))
+
+// ---------------------------------------------------------------------------
+// Index appliers (C04, C05, C06, C08, C13, C20): the commit-time appliers (Tx.build*Idx) and the open-time
+// appliers (DB.build*Idx) are proved against the same statements "this record is applied by calling that
+// structure method of that bucket's structure with these decoded arguments", so a reopen replays what Commit applied.
+//@ spec func setsOK(db *DB) bool = db.SetIdx != nil && (forall b string :: has(db.SetIdx, b) ==> set.setOK(db.SetIdx[b]))
+//@ spec func otherSets(db *DB, bucket string) bool = forall b string :: b != bucket ==> has(db.SetIdx, b) == old(has(db.SetIdx, b)) && db.SetIdx[b] == old(db.SetIdx[b])
+
+//@ func Tx.buildSetIdx
+//@   requires tx != nil && tx.db != nil && setsOK(tx.db) && entry != nil && entry.Meta != nil
+//@   requires[C14] lockMode == 2
+//@   at entry: bump idxMut
+//@   ensures idxMut == old(idxMut) + 1
+//@   ensures[C06] setsOK(tx.db) && has(tx.db.SetIdx, bucket) && (old(has(tx.db.SetIdx, bucket)) ==> tx.db.SetIdx[bucket] == old(tx.db.SetIdx[bucket]))
+//@   ensures[C04] otherSets(tx.db, bucket)
+//@   ensures[C06,C08] entry.Meta.Flag == DataSetFlag ==> set.member(tx.db.SetIdx[bucket], string(entry.Key), string(entry.Value))
+//@   ensures[C06,C08] entry.Meta.Flag == DataDeleteFlag && len(entry.Value) > 0 ==> !set.member(tx.db.SetIdx[bucket], string(entry.Key), string(entry.Value))
+//@   at call SAdd: assert[C06,C08] entry.Meta.Flag == DataSetFlag && $arg0 == tx.db.SetIdx[bucket] && $arg1 == string(entry.Key) && len($arg2) == 1 && $arg2[0] == entry.Value
+//@   at call SRem: assert[C06,C08] entry.Meta.Flag == DataDeleteFlag && $arg0 == tx.db.SetIdx[bucket] && $arg1 == string(entry.Key) && len($arg2) == 1 && $arg2[0] == entry.Value
+//@   modifies entries(tx.db.SetIdx), entries(tx.db.SetIdx[bucket].M), entries(tx.db.SetIdx[bucket].M[string(entry.Key)]), idxMut
+//@   safety[C20] panics
+
+//@ func DB.buildSetIdx
+//@   requires db != nil && setsOK(db) && r != nil && r.H != nil && r.H.meta != nil
+//@   ensures[C06] setsOK(db) && has(db.SetIdx, bucket) && (old(has(db.SetIdx, bucket)) ==> db.SetIdx[bucket] == old(db.SetIdx[bucket]))
+//@   ensures[C04] otherSets(db, bucket)
+//@   ensures[C08,C19] r.E == nil ==> result == ErrEntryIdxModeOpt
+//@   ensures[C08,C09] r.E != nil ==> result == nil
+//@   ensures[C06,C08] r.E != nil && r.H.meta.Flag == DataSetFlag ==> set.member(db.SetIdx[bucket], string(r.E.Key), string(r.E.Value))
+//@   ensures[C06,C08] r.E != nil && r.H.meta.Flag == DataDeleteFlag && len(r.E.Value) > 0 ==> !set.member(db.SetIdx[bucket], string(r.E.Key), string(r.E.Value))
+//@   at call SAdd: assert[C06,C08] r.H.meta.Flag == DataSetFlag && $arg0 == db.SetIdx[bucket] && $arg1 == string(r.E.Key) && len($arg2) == 1 && $arg2[0] == r.E.Value
+//@   at call SRem: assert[C06,C08] r.H.meta.Flag == DataDeleteFlag && $arg0 == db.SetIdx[bucket] && $arg1 == string(r.E.Key) && len($arg2) == 1 && $arg2[0] == r.E.Value
+//@   modifies entries(db.SetIdx), entries(db.SetIdx[bucket].M), entries(db.SetIdx[bucket].M[string(r.E.Key)])
+//@   safety[C20] panics
+
+// ---- strings.Split as seen by the list / sorted-set appliers (assumed contract on the dependency)
+//@ spec func splitLen(s string, sep string) int
+//@ spec func splitPart(s string, sep string, i int) string
+//@ spec axiom splitTwo: forall a string, b string, sep string :: !strContains(a, sep) && !strContains(b, sep) ==>
+//@        splitLen(concat(concat(a, sep), b), sep) == 2 && splitPart(concat(concat(a, sep), b), sep, 0) == a && splitPart(concat(concat(a, sep), b), sep, 1) == b
+//@ spec axiom splitHead: forall a string, b string, sep string :: !strContains(a, sep) ==> splitPart(concat(concat(a, sep), b), sep, 0) == a
+//@ spec axiom concatHasSep: forall a string, b string, sep string :: strContains(concat(concat(a, sep), b), sep)
+//@ spec axiom itoaNoSep: forall n int64 :: !strContains(itoa(n), SeparatorForListKey)
+//@ extern strings.Split (s, sep) (r)
+//@   ensures len(r) == splitLen(s, sep) && len(r) >= 1 && (strContains(s, sep) ==> len(r) >= 2)
+//@   ensures forall i int :: 0 <= i && i < len(r) ==> r[i] == splitPart(s, sep, i)
+//@   modifies nothing
+
+//@ spec func splitRest(s string, sep string) string
+//@ spec axiom splitRestAx: forall a string, b string, sep string :: !strContains(a, sep) ==> splitRest(concat(concat(a, sep), b), sep) == b
+//@ extern strings.SplitN (s, sep, n) (r)
+//@   ensures n == 2 ==> 1 <= len(r) && len(r) <= 2 && (strContains(s, sep) ==> len(r) == 2) && r[0] == splitPart(s, sep, 0) && (len(r) == 2 ==> r[1] == splitRest(s, sep))
+//@   modifies nothing
+
+// recShape: what the exported list / sorted-set writers guarantee about the records they log, and what the
+// commit-time appliers need to index into the result of strings.Split without panicking.
+// (the slices whose contents matter are required to sit in allocated, non-nil arrays so that the facts survive later writes to fresh buffers)
+//@ spec func sepIn(b []byte, sep string) bool = arr(b) != 0 && allocated(b) && strContains(string(b), sep)
+//@ spec func recShapeOf(flag uint16, ds uint16, key []byte, value []byte) bool = (ds == DataStructureList && flag == DataLRemFlag ==> sepIn(value, SeparatorForListKey)) &&
+//@        (ds == DataStructureList && (flag == DataLSetFlag || flag == DataLTrimFlag) ==> sepIn(key, SeparatorForListKey)) &&
+//@        (ds == DataStructureSortedSet && flag == DataZAddFlag ==> sepIn(key, SeparatorForZSetKey))
+//@ spec func recShape(e *Entry) bool = recShapeOf(e.Meta.Flag, e.Meta.ds, e.Key, e.Value)
+//@ spec func listsOK(db *DB) bool = db.ListIdx != nil && (forall b string :: has(db.ListIdx, b) ==> db.ListIdx[b] != nil && db.ListIdx[b].Items != nil)
+//@ spec func otherLists(db *DB, bucket string) bool = forall b string :: b != bucket ==> has(db.ListIdx, b) == old(has(db.ListIdx, b)) && db.ListIdx[b] == old(db.ListIdx[b])
+
+//@ func Tx.buildListIdx
+//@   requires tx != nil && tx.db != nil && listsOK(tx.db) && entry != nil && entry.Meta != nil && entry.Meta.ds == DataStructureList && recShape(entry)
+//@   requires[C14] lockMode == 2
+//@   at entry: bump idxMut
+//@   ensures idxMut == old(idxMut) + 1
+//@   ensures[C05] listsOK(tx.db) && has(tx.db.ListIdx, bucket) && (old(has(tx.db.ListIdx, bucket)) ==> tx.db.ListIdx[bucket] == old(tx.db.ListIdx[bucket]))
+//@   ensures[C04] otherLists(tx.db, bucket)
+//@   at call LPush: assert[C05,C08] entry.Meta.Flag == DataLPushFlag && $arg0 == tx.db.ListIdx[bucket] && $arg1 == string(entry.Key) && len($arg2) == 1 && $arg2[0] == entry.Value
+//@   at call RPush: assume old(allocated(tx.db.ListIdx[bucket].Items[string(entry.Key)]))
+//@   at call RPush: assert[C05,C08] entry.Meta.Flag == DataRPushFlag && $arg0 == tx.db.ListIdx[bucket] && $arg1 == string(entry.Key) && len($arg2) == 1 && $arg2[0] == entry.Value
+//@   at call LPop: assert[C05,C08,C13] entry.Meta.Flag == DataLPopFlag && $arg0 == tx.db.ListIdx[bucket] && $arg1 == string(entry.Key)
+//@   at call RPop: assert[C05,C08,C13] entry.Meta.Flag == DataRPopFlag && $arg0 == tx.db.ListIdx[bucket] && $arg1 == string(entry.Key)
+//@   at call LRem: assert[C05,C08] entry.Meta.Flag == DataLRemFlag && $arg0 == tx.db.ListIdx[bucket] && $arg1 == string(entry.Key) &&
+//@        (forall c int64, v string :: string(entry.Value) == concat(concat(itoa(c), SeparatorForListKey), v) ==> $arg2 == c && string($arg3) == v)
+//@   at call LSet: assert[C05,C08] entry.Meta.Flag == DataLSetFlag && $arg0 == tx.db.ListIdx[bucket] && $arg3 == entry.Value &&
+//@        (forall k string, i int64 :: !strContains(k, SeparatorForListKey) && string(entry.Key) == concat(concat(k, SeparatorForListKey), itoa(i)) ==> $arg1 == k && $arg2 == i)
+//@   at call Ltrim: assert[C05,C08] entry.Meta.Flag == DataLTrimFlag && $arg0 == tx.db.ListIdx[bucket] &&
+//@        (forall k string, i int64, j int64 :: !strContains(k, SeparatorForListKey) && string(entry.Key) == concat(concat(k, SeparatorForListKey), itoa(i)) && string(entry.Value) == itoa(j) ==>
+//@           $arg1 == k && $arg2 == i && $arg3 == j)
+//@   modifies entries(tx.db.ListIdx), allentries(tx.db.ListIdx[bucket].Items), allelems(tx.db.ListIdx[bucket].Items[string(entry.Key)]), idxMut
+//@   safety[C20] panics
+
+//@ func ErrWhenBuildListIdx
+//@   ensures result != nil
+//@   modifies nothing
+//@ func DB.buildListIdx
+//@   requires db != nil && listsOK(db) && r != nil && r.H != nil && r.H.meta != nil && r.H.meta.ds == DataStructureList
+//@   at entry: assume r.E != nil ==> recShapeOf(r.H.meta.Flag, r.H.meta.ds, r.E.Key, r.E.Value)
+//@   ensures[C05] listsOK(db) && has(db.ListIdx, bucket) && (old(has(db.ListIdx, bucket)) ==> db.ListIdx[bucket] == old(db.ListIdx[bucket]))
+//@   ensures[C04] otherLists(db, bucket)
+//@   ensures[C08,C19] r.E == nil ==> result == ErrEntryIdxModeOpt
+//@   ensures[C08,C09] r.E != nil ==> result == nil
+//@   at call LPush: assert[C05,C08] r.H.meta.Flag == DataLPushFlag && $arg0 == db.ListIdx[bucket] && $arg1 == string(r.E.Key) && len($arg2) == 1 && $arg2[0] == r.E.Value
+//@   at call RPush: assume old(allocated(db.ListIdx[bucket].Items[string(r.E.Key)]))
+//@   at call RPush: assert[C05,C08] r.H.meta.Flag == DataRPushFlag && $arg0 == db.ListIdx[bucket] && $arg1 == string(r.E.Key) && len($arg2) == 1 && $arg2[0] == r.E.Value
+//@   at call LPop: assert[C05,C08,C13] r.H.meta.Flag == DataLPopFlag && $arg0 == db.ListIdx[bucket] && $arg1 == string(r.E.Key)
+//@   at call RPop: assert[C05,C08,C13] r.H.meta.Flag == DataRPopFlag && $arg0 == db.ListIdx[bucket] && $arg1 == string(r.E.Key)
+//@   at call LRem: assert[C05,C08] r.H.meta.Flag == DataLRemFlag && $arg0 == db.ListIdx[bucket] && $arg1 == string(r.E.Key) &&
+//@        (forall c int64, v string :: string(r.E.Value) == concat(concat(itoa(c), SeparatorForListKey), v) ==> $arg2 == c && string($arg3) == v)
+//@   at call LSet: assert[C05,C08] r.H.meta.Flag == DataLSetFlag && $arg0 == db.ListIdx[bucket] && $arg3 == r.E.Value &&
+//@        (forall k string, i int64 :: !strContains(k, SeparatorForListKey) && string(r.E.Key) == concat(concat(k, SeparatorForListKey), itoa(i)) ==> $arg1 == k && $arg2 == i)
+//@   at call Ltrim: assert[C05,C08] r.H.meta.Flag == DataLTrimFlag && $arg0 == db.ListIdx[bucket] &&
+//@        (forall k string, i int64, j int64 :: !strContains(k, SeparatorForListKey) && string(r.E.Key) == concat(concat(k, SeparatorForListKey), itoa(i)) && string(r.E.Value) == itoa(j) ==>
+//@           $arg1 == k && $arg2 == i && $arg3 == j)
+//@   modifies entries(db.ListIdx), allentries(db.ListIdx[bucket].Items), allelems(db.ListIdx[bucket].Items[string(r.E.Key)])
+//@   safety[C20] panics
